@@ -318,7 +318,7 @@ CHECKS = {
         technique="property-based testing (rapid) of generated concurrent programs with payload-tagged requests; adversarial response timing from the fake broker; schedule-point yields",
         level_text=("2-8 goroutines share one Conn (or 2-12 share one Transport to 1-3 brokers); every call asks for something only it asks for (a unique timestamp, topic, group, key, record value, byte limit) and the fake broker derives the answer from that tag. "
                     "Responses are delayed, dribbled byte by byte, held back while other calls proceed, cut or dropped; transport calls are cancelled at generated moments, idle connections expire, Conn deadlines fire; "
-                    "schedule points inside waitResponse / doRequest / conn.run add yields. Oracle: every call returns an error or the answer carrying its own tag; produce acknowledgements are checked against the log. Also: requests the Transport splits into sub-requests (first one delayed), the deterministic pattern 'deadline ends while the answer is held, next call on the same route', fetch responses whose records are consumed lazily while other calls run, batches closed early and twice on three Conns used at the same time, a hammer of 6-16 goroutines released together by a spin barrier for hundreds of rounds (windows of a few instructions), a watchdog for calls that never return, and io.ErrNoProgress on a Conn whose responses were all delivered completely counts as a misaligned stream; in a third of the Conn cases a compressed write with a codec that cannot be set up fails first (what it leaves in the shared buffers must not matter)."),
+                    "schedule points inside waitResponse / doRequest / conn.run add yields. Oracle: every call returns an error or the answer carrying its own tag; produce acknowledgements are checked against the log. Also: requests the Transport splits into sub-requests (first one delayed), the deterministic pattern 'deadline ends while the answer is held, next call on the same route', fetch responses whose records are consumed lazily while other calls run, batches closed early and twice on three Conns used at the same time, a hammer of 6-16 goroutines released together by a spin barrier for hundreds of rounds (windows of a few instructions), a watchdog for calls that never return, and io.ErrNoProgress on a Conn whose responses were all delivered completely counts as a misaligned stream; in a third of the Conn cases a compressed write with a codec that cannot be set up fails first (what it leaves in the shared buffers must not matter). Conn call kind assignment: the opaque bytes a SyncGroup answer carries are kept by the caller as handed out and compared when every call of the case is over (an answer stays the answer of its call whatever the Conn reads later)."),
         level_note="interleavings are sampled; a cross-talk that needs a specific interleaving may be missed in one run",
         rule=("case = (mode, goroutines x tagged calls with per-call broker fault and cancellation point, deadlines, schedule-point yields); non-trivial = >= 2 goroutines and at least one fault or cancellation; distinct by (mode, shape, fault multiset, labels)."),
         assumptions=["the fake answers requests of one connection in request order, as Kafka guarantees"],
